@@ -22,8 +22,10 @@ from vlib.framework import guarded
 RULE = ('random forests (any labelling incl. > 2^32, shuffled rows, several roots, REROOTED skeletons whose ids are not topologically ordered, '
         'missing radii) with soma / connectors x labels in {True, False, column, dict} x export_connectors x write_meta variants; every source '
         'kind (path, Path, SWC string, text buffer, binary buffer, DataFrame, folder, zip, fmt patterns) x precision 16/32/64 x delimiters. '
+        'BaseReader.parse_filename against model/Fmt.v on random fmt patterns (literal runs with regex-special characters; named, typed, multi-name and ignored fields; malformed type annotations) x file names (rendered from values, separators inside values, garbage around, unrelated, directory prefixes, values that do not convert). '
         'non-trivial = forest has a branch point or >= 2 roots and non-sequential ids; distinct = distinct (table, options).')
-ASSUMPTIONS = ['text <-> float conversion is Python\'s / pandas\' (trusted); coordinates are compared at the precision requested']
+ASSUMPTIONS = ['text <-> float conversion is Python\'s / pandas\' (trusted); coordinates are compared at the precision requested',
+               'fmt model: field bodies with regex-special characters or blanks, nested braces, exponent / inf / nan / non-ASCII number spellings and paths ending in a slash or dot component are outside the generator (model/Fmt.v header)']
 
 
 def tokenise(path):
@@ -43,6 +45,8 @@ def run(ctx):
     navis.set_loggers('ERROR')
     navis.set_pbars(hide=True)
     rng = ctx.rng
+    from checks import fmtparse
+    fmtparse.run(ctx, ctx.n(500, 8000), 'C07fmt')
     N = ctx.n(110, 1500)
     tmp = tempfile.mkdtemp(prefix='c07_', dir=os.path.join(coqio.VERIF, '.work'))
     jobs = []
